@@ -293,6 +293,9 @@ def load_oracle(kind, safety, tolerant, unreadable, res):
         ok = ok and "num" in res["arrays"] and "lab" in res["arrays"]
         if nfail == 0:
             ok = ok and res["names"] == listed and res["num"] == [1, 11]
+        else:
+            # tolerant loading: the arrays keep the rows of the members that were read, in the stored order
+            ok = ok and res["names"] == readable and res["num"] == [{"oldA": 1, "oldB": 11}[d] for d in readable]
     else:
         ok = ok and res["arrays"] == []
     ok = ok and (res["tag"] == "old") == (chk < 2)
